@@ -6,6 +6,7 @@ import re
 
 from vlib import Broken, NCPU, log
 
+PROPS = {"C09": "model_checking"}
 HARNESS = ["zz_verif_routing_test.go", "zz_verif_life_test.go", "zz_verif_gossip_test.go"]
 PROFILES = {
     "quick": dict(design=[("g_fix2.cfg", 300), ("g_fix2s.cfg", 300), ("g_fix3.cfg", 300), ("g_leave_own.cfg", 300)],
